@@ -309,6 +309,91 @@ def large_table_events(ctx, rng, nprng):
     return events
 
 
+def tol_events(ctx):
+    """Pairs whose competing images differ in length by amounts comparable to the tolerance (kind "tol")."""
+    nprng = np.random.default_rng(ctx.seed + 41)
+    lattices = [
+        ("cubic", np.diag([4.0, 4.0, 4.0])),
+        ("tetragonal", np.diag([3.0, 3.0, 5.0])),
+        ("hexagonal", np.array([[3.2, 0, 0], [-1.6, 1.6 * np.sqrt(3), 0], [0, 0, 5.1]])),
+        ("fcc-prim", 2.1 * np.array([[0, 1, 1], [1, 0, 1], [1, 1, 0.0]])),
+    ]
+    sites = [(0.5, 0.5, 0.5), (0.5, 0.5, 0.0), (0.5, 0.0, 0.0), (0.5, 0.5, 0.25)]
+    dirs = [(-1.0, -0.3, -0.2), (1.0, 0.6, 0.3), (0.2, -1.0, 0.5), (1, 1, 1), (1, 0, 0)]
+    scales = (0.2, 0.6, 1.0, 1.7, 3.0) if not ctx.quick else (0.6, 1.0, 1.7)
+    events = []
+    n_wide = n_out = 0
+    for name, L in lattices:
+        R = np.linalg.qr(nprng.normal(size=(3, 3)))[0]
+        Ls = L @ R
+        for tol in (1e-5, 1e-3):
+            for site in sites:
+                for d in dirs + [tuple(nprng.normal(size=3)) for _ in range(1 if ctx.quick else 3)]:
+                    for sc in scales:
+                        disp = np.array(d, dtype=float)
+                        disp = disp / np.linalg.norm(disp) * sc * tol          # Cartesian, in units of the tolerance
+                        pos_to = np.array([site]) + disp @ np.linalg.inv(Ls)
+                        pos_from = np.zeros((1, 3))
+                        tabs = {}
+                        try:
+                            for dense in (True, False):
+                                tabs[dense] = get_smallest_vectors(Ls, pos_to, pos_from, store_dense_svecs=dense, symprec=tol)
+                        except Exception as e:
+                            ctx.violation("impl:exception:tol", "get_smallest_vectors raised %s on a near-tie" % type(e).__name__,
+                                          dict(lattice=name, site=site, disp=disp.tolist(), tol=tol, error=repr(e)))
+                            continue
+                        sep = pos_to[0] - pos_from[0]
+                        box = np.array(list(itertools.product(range(-3, 4), repeat=3)), dtype=float)
+                        imgs = sep + box
+                        lens = np.linalg.norm(imgs @ Ls, axis=1)
+                        m = lens.min()
+                        inner = np.abs(box).max(axis=1) <= 2
+                        if not (lens[~inner] > m + 10 * tol).all():
+                            raise tlcmod.MachineryError("tolerance-window brute force: box not sufficient")
+                        must = lens < m + tol * (1 - 1e-6)
+                        may = lens <= m + tol * (1 + 1e-6)
+                        n_wide += int(must.sum() > (np.abs(lens - m) < 1e-12).sum())
+                        n_out += int(((lens > m + tol * (1 + 1e-6)) & (lens < m + 4 * tol)).any())
+                        rec = dict(within={}, complete={}, nodup={}, multi={})
+                        sets = {}
+                        for dense, key in ((True, "dense"), (False, "sparse")):
+                            sv, mu = tabs[dense]
+                            if dense:
+                                cnt, adr = int(mu[0, 0, 0]), int(mu[0, 0, 1])
+                                inb = 0 <= adr and adr + cnt <= len(sv)
+                                v = sv[adr:adr + cnt] if inb else np.zeros((0, 3))
+                            else:
+                                cnt = int(mu[0, 0])
+                                inb = 0 <= cnt <= sv.shape[2]
+                                v = sv[0, 0, :cnt] if inb else np.zeros((0, 3))
+                            idx = []
+                            ok_img = inb
+                            for w in v:
+                                k = np.where(np.abs(imgs - w).max(axis=1) < 1e-8)[0]
+                                if len(k) != 1:
+                                    ok_img = False
+                                else:
+                                    idx.append(int(k[0]))
+                            rec["within"][key] = bool(ok_img and all(may[k] for k in idx))
+                            rec["complete"][key] = bool(inb and set(np.where(must)[0]) <= set(idx))
+                            rec["nodup"][key] = bool(len(set(idx)) == len(idx))
+                            rec["multi"][key] = bool(inb and cnt == len(idx) and cnt >= 1)
+                            sets[key] = frozenset(idx)
+                        edge = ((lens >= m + tol * (1 - 1e-6)) & (lens <= m + tol * (1 + 1e-6))).any()
+                        events.append(dict(kind="tol", lat=name, tolE=int(round(-np.log10(tol))), scale=int(round(sc * 10)),
+                                           nmust=int(must.sum()), within=rec["within"], complete=rec["complete"],
+                                           nodup=rec["nodup"], multi=rec["multi"],
+                                           same=bool(edge or sets["dense"] == sets["sparse"]),
+                                           id=len(events)))
+                        ctx.count(("tol", name, tol, site, tuple(np.round(disp / tol, 3))))
+    ctx.extra["tolerance_window_pairs"] = len(events)
+    ctx.extra["tolerance_window_pairs_with_near_ties_inside"] = n_wide
+    ctx.extra["tolerance_window_pairs_with_near_ties_outside"] = n_out
+    if n_wide < 5 or n_out < 5:
+        raise tlcmod.MachineryError("tolerance-window cases are vacuous (%d inside, %d outside)" % (n_wide, n_out))
+    return events
+
+
 def reduce_gram(Gs):
     """Integer pair reduction: returns (Gr, U) with Gs = U Gr U^T, U unimodular (TLC re-checks both)."""
     Gs = np.array(Gs, dtype=object)
@@ -469,6 +554,11 @@ INVARIANT ImplSparseNoDup
 INVARIANT ImplSparseMulti
 INVARIANT ImplAreImages
 INVARIANT ImplAddressOK
+INVARIANT ImplTolWithin
+INVARIANT ImplTolComplete
+INVARIANT ImplTolNoDup
+INVARIANT ImplTolMulti
+INVARIANT ImplTolSame
 """
 
 
@@ -482,7 +572,7 @@ def run_batch(ctx, cases, tag):
         if name.startswith("InvBox") or name.startswith("InvCase"):
             tlcmod.cleanup(res)
             raise tlcmod.MachineryError("case generator unsound: %s on %s" % (name, e))
-        wit = {k: e.get(k) for k in ("kind", "G", "U", "Gs", "D", "d", "ds", "dense", "sparse", "denseMulti", "sparseMulti")}
+        wit = {k: e.get(k) for k in ("kind", "G", "U", "Gs", "D", "d", "ds", "dense", "sparse", "denseMulti", "sparseMulti", "lat", "tolE", "scale", "nmust", "within", "complete", "nodup", "multi", "same")}
         if name == "Window65Complete":
             ctx.violation("model:Window65Complete",
                           "the 65-point window misses or adds a minimum image for a Niggli-reduced lattice",
@@ -498,6 +588,7 @@ def run(ctx):
                 "(lattice U G U^T, atom pair) with dense and sparse tables recorded from get_smallest_vectors; "
                 "distinct by (form, separation)")
     ev = impl_events(ctx) + phonopy_events(ctx)
+    tev = tol_events(ctx)
     ctx.traces += len(ev)
     mc = model_cases(ctx)
     for c in mc:
@@ -517,7 +608,8 @@ def run(ctx):
         ctx.binding_demo("dense vector replaced by a longer image", "MC_ShortestVectors", CFG,
                          "---- MODULE MC_ShortestVectors ----\nEXTENDS ShortestVectors\nMCCases == {%s}\n====\n" % to_tla(bad),
                          "ImplDenseIsMinSet")
-    allc = ev + mc
+    allc = ev + mc + tev
+    ctx.traces += len(tev)
     chunk = 6000
     for i in range(0, len(allc), chunk):
         run_batch(ctx, allc[i:i + chunk], i)
